@@ -364,6 +364,11 @@ def concretize(p, perm=0, style=None):
             if it.get("um", {}).get("m") == "yes":
                 u = it["um"]
                 txt = ("T%d" % u["lib"]) if u["whole"] else "T%d.macros['%s']" % (u["lib"], u["mname"])
+                form = (perm + i) % 3
+                if form == 1:
+                    txt = "nosuchname | python: " + txt          # a prefixed alternative has a token of its own
+                elif form == 2:
+                    txt = "python: " + txt
                 stm.append(("use-macro", "metal:extend-macro" if u["ext"] else "metal:use-macro", [("x", (i, "use", 0), txt)]))
             if it.get("tr", {}).get("m") == "yes":
                 stm.append(("translate", "i18n:translate", [it["tr"]["id"]]))
